@@ -20,4 +20,14 @@ def run(ctx, proof):
                 res["oracle_failures"].append(dict(f, sig="C03:csv-" + f["sig"][4:]))
         res["evaluations"] = res.get("evaluations", 0) + data["evaluations"]
         res.setdefault("extra", {})["csv_reads"] = data["distribution"].get("reads", 0)
+    # ... and the NetCDF reader: cells the file marks as missing and cells equal to MissingValue are missing, no stored number leaks
+    data, err = common.run_driver_json(ctx, "c18_driver.py", [ctx.scale(25, 250)], timeout=3000)
+    if data is None:
+        res.setdefault("errors", []).append(err)
+    else:
+        for f in data["oracle_failures"]:
+            if f["sig"] in ("C18:read-missing", "C18:read-values"):
+                res["oracle_failures"].append(dict(f, sig="C03:netcdf-" + f["sig"][4:]))
+        res["evaluations"] = res.get("evaluations", 0) + data["distribution"].get("reads", 0)
+        res.setdefault("extra", {})["netcdf_reads"] = data["distribution"].get("reads", 0)
     return res
